@@ -945,8 +945,15 @@ PROPS["C04"] = {
     "undischarged": ['AlgsHomogeneous for grid: FALSE (C04Grid.grid_not_homogeneous, C04Grid.grid_not_homogeneous_autorepeat; known findings); proved jointly in lengths and the three absolute constants (C04Grid.grid_homogeneous_joint), run by run under the exact condition C04Grid.ConstFree (C04Grid.grid_homogeneous_run_iff) and statically under C04Grid.GridFixed; at the tree level accordingly: unconditional for all trees jointly in lengths and constants (C04Tree.tree_homogeneous_joint_all_trees), for the real algorithms on trees whose grid containers are fixed-track (C04Tree.tree_homogeneous_all_trees_partial), FALSE for the real algorithms on all trees (C04Tree.tree_not_homogeneous_real)'],
 }
 
+# the site table as regenerated Lean data (tier T "structural facts"): Generated/Sites.lean is rewritten from src/compute/** by every
+# run; sites_recognised / sites_covered are `decide` proofs over that finite table, the others are facts about the classifier for all sites
+C12_SITES_MODULES = ["TaffyVerif.Props.C12Sites"]
+C12_SITES = ["C12Sites." + n for n in [
+    "sites_recognised", "sites_covered", "raw_copies_read_through_sites", "report_empty", "firstAdd_decomp", "adjusted_sound",
+    "used_before_adjustment_not_adjusted", "unadjusted_not_accepted"]]
+
 PROPS["C12"] = {
-    "modules": ['TaffyVerif.Props.C12'] + EVALFLEX_C12_MODULES + EVALGRID_C12_MODULES, "theorems": EVALFLEX_C12 + EVALGRID_C12 + ['C12.core_arith', 'C12.adjustment_context_free', 'C12.core_site_shape', 'C12.core_flex_basis', 'C12.isAuto_invariant', 'C12.leaf_site_equiv', 'C12.root_site_equiv', 'C12.single_leaf_equiv', 'C12.abs_site_equiv_block', 'C12.abs_site_equiv_flex', 'C12.abs_site_equiv_grid', 'C12.abs_call_sites_equiv', 'C12.block_container_site_equiv', 'C12.block_item_site_equiv', 'C12.tree_equiv', 'C12.tree_equiv_init', 'C12.tree_equiv_root', 'C12.leafAlg_blind', 'C12.block_blind', 'C12.boxBlind_modelled', 'C12.tree_equiv_modelled', 'C12.tree_equiv_block_only', 'C12.grid_compressible_cap_site_not_equiv', 'C12.grid_compressible_cap_repaired_equiv'],
+    "modules": ['TaffyVerif.Props.C12'] + EVALFLEX_C12_MODULES + EVALGRID_C12_MODULES + C12_SITES_MODULES, "theorems": C12_SITES + EVALFLEX_C12 + EVALGRID_C12 + ['C12.core_arith', 'C12.adjustment_context_free', 'C12.core_site_shape', 'C12.core_flex_basis', 'C12.isAuto_invariant', 'C12.leaf_site_equiv', 'C12.root_site_equiv', 'C12.single_leaf_equiv', 'C12.abs_site_equiv_block', 'C12.abs_site_equiv_flex', 'C12.abs_site_equiv_grid', 'C12.abs_call_sites_equiv', 'C12.block_container_site_equiv', 'C12.block_item_site_equiv', 'C12.tree_equiv', 'C12.tree_equiv_init', 'C12.tree_equiv_root', 'C12.leafAlg_blind', 'C12.block_blind', 'C12.boxBlind_modelled', 'C12.tree_equiv_modelled', 'C12.tree_equiv_block_only', 'C12.grid_compressible_cap_site_not_equiv', 'C12.grid_compressible_cap_repaired_equiv'],
     "harness": "C12", "driver": "C12", "monitor": False, "extra_ties": [("EVAL", "EVAL"), ("FLEX", "FLEX"), ("GRID", "GRID")], "extra_tie_cases": 4000,
     "rule": "style trees of 1-12 nodes as for C04 in which half of the nodes are made content-box with length-valued padding/border "
             "(multiples of 1/4, mostly non-zero), no aspect ratio, percentages in size/min/max/flex-basis replaced by lengths or auto, "
@@ -958,11 +965,19 @@ PROPS["C12"] = {
             "All values dyadic (k/4) so that L + padding + border is exact in f32. Fixed first: content-box items with every rewritten "
             "property set in row-flex, column-flex, block and grid containers, all switched. Non-trivial = at least one switched node "
             "has non-zero padding+border and a definite length, and the layout is non-zero.",
-    "trusted_base": _PAIRS_TRUSTED,
+    "trusted_base": _PAIRS_TRUSTED + [
+        "site-table extractor extract/src/sites.rs (syn, no type information): it lists every zero-argument method call named size/min_size/"
+        "max_size/flex_basis/box_sizing in the function bodies of the compiled module tree below src/compute/mod.rs (default features; "
+        "cfg(test)/cfg(taffy_verif) items skipped), every struct-literal field initialised with such a bare call (raw copy), and every field "
+        "expression naming a raw-copy field in a file that mentions the struct; reads inside macro invocations other than debug_*! (shown to "
+        "expand to nothing without the `debug` feature) and destructuring patterns of a raw-copy struct are listed as unparsed, which fails "
+        "C12Sites.sites_recognised; a raw-copy struct moved into a function whose file never names the struct type is not followed",
+        "Model/SiteTable.lean: the hand-written classifier (which chains count as adjusted / tag-only) and its vocabulary (maybe_resolve, "
+        "maybe_apply_aspect_ratio before the adjustment; is_auto/is_some/is_none as tag-only; perform_child_layout returns no style copy)"],
     "assumptions": ["padding/border of switched nodes are lengths (percentages disqualify), values dyadic so sums are exact"],
     "level_text": "Theorems at exact rationals: for an eligible content-box style (length padding/border, no aspect ratio, size/min/max/flex-basis auto or lengths) and its border-box rewrite, every modelled size-reading site computes the same thing — compute_leaf_layout (incl. measure calls), compute_root_layout's parts, the three absolute-positioning copies (child and container side), the block algorithm for its own style and for any subset of switched child styles (equal programs); tree_equiv: with BoxBlind algorithms the two trees evaluate to equal outputs and equal states for every cache implementation, proved outright for trees of block containers and leaves. One unmodelled grid site (compressible replaced items' size cap in grid_item.rs) was found NOT equivalent — witness proved in Lean, replayed on the real code, repaired by a fix commit. On the real code the clause is sampled on tree pairs (random subsets of switched nodes), bit-exact.",
-    "level_note": 'proved: ContainerBlind is PROVED for the whole flexbox program (C12Flex.flex_ContainerBlind) and for the whole grid program (C12Grid.grid_ContainerBlind: Model/Grid.lean + GridItem.lean + GridSizing.lean, tied by the GRID correspondence; own style incl. compute_explicit_grid_size_in_axis, and any subset of child styles through GridItem::new, known_dimensions, minimum_contribution with the REPAIRED cap of compressible replaced items, align_and_position_item for in-flow and absolute children), so BoxBlind holds for all four modelled algorithms (C12Grid.boxBlind_all) and the tree theorem holds for ALL trees with no hypothesis left (C12Grid.tree_equiv_all_trees, tree_equiv_root_all_trees). C12.grid_compressible_cap_site_not_equiv remains the witness against the unrepaired code. Axioms: propext, Classical.choice, Quot.sound.',
-    "technique": 'Lean 4 site-equivalence proofs + induction over the evaluator + metamorphic box-sizing tree pairs on the real TaffyTree',
+    "level_note": 'proved: ContainerBlind is PROVED for the whole flexbox program (C12Flex.flex_ContainerBlind) and for the whole grid program (C12Grid.grid_ContainerBlind: Model/Grid.lean + GridItem.lean + GridSizing.lean, tied by the GRID correspondence; own style incl. compute_explicit_grid_size_in_axis, and any subset of child styles through GridItem::new, known_dimensions, minimum_contribution with the REPAIRED cap of compressible replaced items, align_and_position_item for in-flow and absolute children), so BoxBlind holds for all four modelled algorithms (C12Grid.boxBlind_all) and the tree theorem holds for ALL trees with no hypothesis left (C12Grid.tree_equiv_all_trees, tree_equiv_root_all_trees). C12.grid_compressible_cap_site_not_equiv remains the witness against the unrepaired code. StyleReadsThroughSites is discharged on the current source by the site table (Generated/Sites.lean, regenerated from src/compute/** on every run): C12Sites.sites_recognised (every read of size/min_size/max_size/flex_basis/box_sizing and of their raw copies is adjusted by the same node\'s padding+border on the same axis before any clamp/max/min, or tag-only, or a raw copy whose reads are) and C12Sites.sites_covered (every read\'s file/function/property is listed with its model function and site theorem). Axioms: propext, Classical.choice, Quot.sound.',
+    "technique": 'Lean 4 site-equivalence proofs + induction over the evaluator + extracted site table decided in Lean + metamorphic box-sizing tree pairs on the real TaffyTree',
     "undischarged": [],
 }
 
